@@ -1257,6 +1257,13 @@ def check_lp(model, uv, uc):
     return out
 
 
+def _clean(text):
+    """exception texts without run-dependent parts (addresses, temporary file names)"""
+    text = re.sub(r"0x[0-9a-fA-F]+", "0x..", text)
+    text = re.sub(r"/tmp/tmp\w+", "/tmp/tmp..", text)
+    return " ".join(text.split())
+
+
 def categorize(msg):
     for pat, cat in _CATS:
         if re.search(pat, msg):
@@ -1326,7 +1333,7 @@ def run_history(spec, solver, history, mode, stop_on_failure=True):
     def fail(step_i, op, outcome, cat, text):
         name = op[0] if op else "build"
         key = f"{mode}:{API.get(name, name)}:{outcome}:{cat}"
-        out["failures"].append((key, f"step {step_i} {json.dumps(op)} ({outcome}): {text}", step_i))
+        out["failures"].append((key, f"step {step_i} {json.dumps(op)} ({outcome}): {_clean(text)}", step_i))
 
     def check(step_i, op, outcome):
         out["checks"] += 1
@@ -1393,7 +1400,7 @@ def run_history(spec, solver, history, mode, stop_on_failure=True):
             if documented != outcome:
                 if outcome == "raise":
                     fail(i, op, outcome, "unexpected-" + type(exc).__name__,
-                         f"raised {type(exc).__name__}: {str(exc)[:160]} where the documentation lets the call succeed")
+                         f"raised {type(exc).__name__}: {_clean(str(exc))[:160]} where the documentation lets the call succeed")
                 else:
                     fail(i, op, outcome, "missing-exception", "did not raise although the documented precondition is violated")
                 if stop_on_failure:
@@ -1593,6 +1600,7 @@ DIRECTED = [
     ("B1", "glpk", [["copy", "switch"], ["solver", "glpk_exact"], ["pickle"]]),
     ("B1", "glpk", [["copy", "switch"], ["solver", "glpk_exact"], ["deepcopy"]]),
     ("B1", "glpk_exact", [["pickle"], ["solver", "glpk"], ["copy", "stay"]]),
+    ("B1", "glpk", [["copy", "switch"], ["solver", "glpk_exact"], ["merge", "ra", None, False, "left"]]),
     # scenarios worth pinning (all branches of update_variable_bounds through every route that reaches it)
     ("B0", "glpk", [["rename_rxn", "R0", "RX"], ["bounds", "R0", 1, 10], ["bounds", "R0", -10, -1], ["bounds", "R0", "-inf", "inf"]]),
     ("B1", "glpk_exact", [["imul", "R0", -1], ["imul", "R1", -2], ["pickle"], ["lb", "R0", "-inf"], ["ub", "R1", "inf"]]),
